@@ -38,6 +38,8 @@ def run(ctx, tier):
                         "the name is erased, unconditionally"),
                  ("Q8", "each lookup compares the pair member its argument names: `first` with the name argument, `second` with the "
                         "value argument, all of them, by equality, joined by 'and'"),
+                 ("Q9", "append stores (name, value) in that order; get/get_all hand out the value (`second`) of the pair found; "
+                        "to_string writes name, '=', value for every pair unconditionally and '&' only between pairs"),
                  ("Q5", "form-urlencoded decoder: a byte is copied verbatim only after it was tested not to be '+', and ' ' is written only for '+'")):
         ctx.rule(r, t)
     cfgs = C.configs_for(tier, thorough=["release", "devchecks", "amalgamated", "nopattern"])
@@ -279,9 +281,97 @@ def check_lookup_predicates(ctx, fx):
     ctx.floor("Q8", n, 7, "lookup operations of url_search_params")
 
 
+def check_pair_roles(ctx, fx):
+    """Q9.  The list is a vector of (name, value) pairs; which member plays which role is fixed at three places that no
+    twin comparison covers: append() constructs the pair from (key, value) in that order; get()/get_all() return
+    `second`; to_string() appends first, "=", second for every pair with no condition in between, and "&" only when
+    the pair is not the first."""
+    n = 0
+    # append
+    f = fx.fn1("ada::url_search_params::append")
+    ps = [p_["id"] for p_ in f.get("params", [])]
+    calls = [nd for nd, st, b in C.all_nodes(f) if nd.get("k") == "call" and nd.get("name") in ("emplace_back", "push_back")]
+    order = None
+    if len(calls) == 1:
+        ids = [x.get("id") for a in calls[0].get("args", []) for x in X.walk(a) if isinstance(x, dict) and x.get("k") == "ref" and x.get("id") in ps]
+        order = ids
+    n += 1
+    ctx.check("Q9", "append constructs the pair as (name, value)", order == ps and len(ps) == 2,
+              "emplace_back(key, value)", "url_search_params::append passes its arguments to the pair as %s; the pair is (name, value) "
+              "in the order of the parameters" % ("in the wrong order" if order and sorted(order) == sorted(ps) else "something else (%s)" % order),
+              where=f["loc"].replace("/repo/", ""))
+    # get / get_all hand out `second`
+    for nm in ("get", "get_all"):
+        f = fx.fn1("ada::url_search_params::%s" % nm)
+        outs = []
+        for nd, st, b in C.all_nodes(f):
+            if st.get("k") == "return" and nd is X.strip(st.get("e")) or False:
+                pass
+        for b in f["blocks"]:
+            for st in b["stmts"]:
+                if st["k"] == "return" and st.get("e") is not None and nm == "get":
+                    t = X.show(st["e"])
+                    if "nullopt" not in t:
+                        outs.append(t)
+                for nd in X.stmt_nodes(st):
+                    if nm == "get_all" and nd.get("k") == "call" and nd.get("name") in ("emplace_back", "push_back"):
+                        outs.append(X.show(nd))
+        members = {m for t in outs for m in ("first", "second") if "." + m in t or "->" + m in t}
+        n += 1
+        ctx.check("Q9", "%s hands out the value of the pair" % nm, members == {"second"} and outs,
+                  "; ".join(o[:50] for o in outs), "url_search_params::%s hands out %s: the result is the VALUE (`second`) of the pair "
+                  "whose name matches" % (nm, "; ".join(o[:60] for o in outs) or "nothing recognisable"),
+                  where=f["loc"].replace("/repo/", ""))
+    # to_string
+    f = fx.fn1("ada::url_search_params::to_string")
+    blocks = {b["id"]: b for b in f["blocks"]}
+    appends = []          # (block id, text)
+    for b in f["blocks"]:
+        for st in b["stmts"]:
+            for nd in X.stmt_nodes(st, local=True):
+                if nd.get("k") == "call" and nd.get("name") in ("append", "operator+=", "push_back") and nd.get("recv") is not None \
+                        and X.show(X.strip(nd["recv"])) == "out":
+                    a = nd.get("args", [])
+                    appends.append((b["id"], X.show(X.strip(a[0])) if a else ""))
+    texts = [t for _b, t in appends]
+    eq = [i for i, t in enumerate(texts) if t.strip('"\'') == "=" or t in ('"="', "'='")]
+    amp = [i for i, t in enumerate(texts) if t.strip('"\'') == "&"]
+    shape = False
+    detail = " ; ".join(texts)
+    if len(eq) == 1 and len(amp) == 1:
+        i = eq[0]
+        same_block = 0 < i < len(appends) - 1 and appends[i - 1][0] == appends[i][0] == appends[i + 1][0]
+        names = ("key" in texts[i - 1] or "first" in texts[i - 1]) and ("value" in texts[i + 1] or "second" in texts[i + 1]) if same_block else False
+        # '&' is appended in a block of its own, guarded by a test that mentions the index / a first-pair flag
+        ab = appends[amp[0]][0]
+        guarded = ab != appends[i][0]
+        shape = same_block and names and guarded
+    n += 1
+    ctx.check("Q9", "to_string writes name '=' value for every pair, '&' between pairs", shape, detail,
+              "url_search_params::to_string appends [%s]: expected, in one unconditional run per pair, the encoded name, \"=\", the encoded "
+              "value, and \"&\" in a separate guarded step (a pair with an empty value still serialises as \"name=\")" % detail,
+              where=f["loc"].replace("/repo/", ""))
+    # initialize: between two '&' only the EMPTY sequence is skipped
+    f = fx.fn1("ada::url_search_params::initialize")
+    from rules import c10_limits as LIM
+    pts = set()
+    for nd, st, b in C.all_nodes(f):
+        if nd.get("k") == "bin" and nd.get("op") in ("<", "<=", ">", ">=", "==", "!=") and "ampersand" in X.show(nd):
+            a = LIM.abstract(nd, 0)
+            if a is not None and not (a[0] == LIM.PT and (a[1] < 0 or a[1] > 2 ** 31)):
+                pts.add(a)
+    n += 1
+    ctx.check("Q9", "initialize skips only empty sequences", pts == {(LIM.PT, 0)}, "; ".join(LIM.fmt(x) for x in sorted(pts, key=str)),
+              "url_search_params::initialize compares the position of '&' with %s: the urlencoded parser skips a sequence only when "
+              "it is EMPTY (position 0), so \"a&&b\" gives two pairs and \"&x=1\" one" % (
+                  "; ".join(LIM.fmt(x) for x in sorted(pts, key=str)) or "nothing"), where=f["loc"].replace("/repo/", ""))
+    ctx.floor("Q9", n, 5, "pair-role obligations")
+
+
 def check(ctx, fx):
     check_decoder_copies(ctx, fx)
     check_lookup_predicates(ctx, fx)
+    check_pair_roles(ctx, fx)
     check_compaction_aliasing(ctx, fx)
     check_set(ctx, fx)
     # ---- Q1 ----
